@@ -99,6 +99,8 @@ static void witnesses(void) {
 	/* complete messages, duplicates, reorder, reuse after completion */
 	do_init(7, 1); do_frag(5, 1, 0, 3, 1); do_frag(7, 0, 1, 1, 2); do_frag(7, 0, 1, 1, 1); do_frag(6, 0, 0, 3, 2); do_frag(6, 0, 0, 3, 1);
 	do_frag(9, 1, 1, 4, 2); do_reset(); do_frag(1, 0, 0, 0, 1);
+	/* a bitmap without a spare bit: 8 blocks of 1 octet, 1 octet of bitmap; an empty last fragment exactly at the end */
+	do_init(8, 1); do_frag(1, 1, 0, 1, 2); do_frag(9, 0, 1, 0, 1); do_frag(8, 0, 1, 1, 1);
 	do_alloc(8, 2); do_alloc(0, 0); do_alloc(100, 7);
 }
 static void history(unsigned maxlen) {
